@@ -28,10 +28,10 @@ out = subprocess.run(["/verif/tools/seedcheck.sh", prop, k] + checks, capture_ou
 line = [l for l in out.splitlines() if l.startswith(f"{prop}/{k}:")]
 line = line[-1] if line else out[-300:]
 print(line)
-m = re.search(r"demo_changed=(\d+) demo_unchanged=(\d+) (suite_missing=\d+\S*|suite=skipped) checks:(.*)", line)
+m = re.search(r"demo_changed=(\d+) demo_unchanged=(\d+) (?:(load_flaky_on_unchanged_tree_too=\S+) )?(suite_missing=\d+\S*|suite=skipped) checks:(.*)", line)
 if not m:
     sys.exit("not confirmed: " + line)
-dc, du, suite, res = int(m.group(1)), int(m.group(2)), m.group(3), m.group(4)
+dc, du, flaky, suite, res = int(m.group(1)), int(m.group(2)), m.group(3), m.group(4), m.group(5)
 verdicts = {c: (int(rc), mech.strip().replace("mechanism=", "")) for c, rc, mech in re.findall(r"(C\d\d):exit=(\d+)\[([^\]]*)\]", res)}
 ok = dc != 0 and du == 0 and suite.startswith("suite_missing=0")
 if not ok:
@@ -58,7 +58,8 @@ meta = {
                "compared with BASELINE.stable_pass; ./check <ID> with STV_REPO=<worktree>",
         "demo_exit_changed_tree": dc,
         "demo_exit_unchanged_tree": du,
-        "suite": suite + " (tests of BASELINE.stable_pass that did not pass on the changed tree)",
+        "suite": suite + " (tests of BASELINE.stable_pass that did not pass on the changed tree)"
+                 + (f"; {flaky} (10 s per-test timeout; failed on the unchanged tree as well in the same minute, under machine load)" if flaky else ""),
         "checks_quick": {c: {"exit": rc, "first_mechanism": mech} for c, (rc, mech) in verdicts.items()},
         "caught_by": sorted(c for c, (rc, _) in verdicts.items() if rc == 1),
         "wall_s": round(time.time() - t0),
